@@ -398,3 +398,11 @@ pub fn check_and_run(sources: &Sources, stdin: &[u8], args: &[String], fuel: u64
         | Err(e) => CheckedRun { verdict: analyzed.verdict, run: None, not_executable: Some(e) },
     }
 }
+
+/// Structured coverage errors of an analysed root (empty if the query fails).
+pub fn catch_coverage(analyzed: &Analyzed) -> Vec<zydeco_statics::validate::CoverageError> {
+    match catch(|| analyzed.session.coverage(&analyzed.root)) {
+        | Ok(Ok(v)) => v,
+        | _ => Vec::new(),
+    }
+}
